@@ -76,7 +76,7 @@ def gen_search(tier, seed):
 RULE = ('cases = (timeout T in {8,100,1024} ticks, list of external events) run against the real '
         'aiuti.asyncio.BufferAsyncCalls under the virtual-time loop: Submit (plain call / map of a list / map of an '
         'iterator incl. failing part-way / await_ / amap with scripted yields, failure, end), Advance dt, '
-        'wait(cancel=True/False), FnOk / FnFail (the harness-owned buffered function parks until told), Shutdown; '
+        'wait(cancel=True/False), FnOk / FnFail (the harness-owned buffered function parks until told; it is handed over as a bound method, a callable object without __name__/__qualname__ or a functools.partial, and FnFail makes it raise an ordinary Exception or asyncio.CancelledError of its own — chosen per case by a checksum of the event list, alternating by call number in half of the cases), Shutdown; '
         'observation per event = every FnStart (copy of the set, tick), FnEnd (ok, set re-read), WaitRet, DaemonEnded. '
         'corpus: named debounce scenarios and 1..7 consecutive failed calls followed by the bare retry / a newcomer / a burst of two '
         '(42 words) x 3 timeouts; exhaustive layer: every word of <=5 (quick) / <=6 (thorough) letters over '
@@ -110,7 +110,7 @@ LEVEL_TEXT = ('BufferAsyncCalls is modelled step for step as an executable macro
               'observation with the model inside Coq (vm_compute); the monitor Case_C08.ok re-decides serial / non-empty / '
               'not-early / exact-burst / not-late (a call that is not a forced flush starts at most one timeout after the later of the latest '
               'submission and the end of the previous call: the retry after any number of failed calls, and a burst arriving after failed '
-              'calls, wait ONE timeout) on the implementation trace.  monitor_complete: for EVERY timeout and event list the whole '
+              'calls, wait ONE timeout) / daemon-ends-only-by-Shutdown on the implementation trace.  monitor_complete: for EVERY timeout and event list the whole '
               'monitor (serial part and timed walk) accepts the model\'s own trace, so a rejection always means the '
               'implementation differs from the model; serial_monitor_sound: acceptance by the serial part implies the readable '
               'statement on any observed trace.')
